@@ -196,6 +196,16 @@ def run(ctx: fw.Ctx) -> int:
                              'which': 'v2' if j == 0 else 'v1', 'drs': drs == 'true'}, observed=fk, sig='invalid-name')
             if len(key) > 63:
                 long_pairs.append((key, keys[0]))
+                # twins: long ids that differ only in characters the name sanitising maps together ('/' and '.', '<' '>' and '_'),
+                # as kopf itself produces them (fn/spec.a/b for a sub-handler of a field handler vs fn/spec.a.b for a deeper field)
+                for a, b in (('/', '.'), ('.', '/'), ('<', '_'), ('>', '_'), ('_', '<')):
+                    i = key.find(a, 1)
+                    if i > 0:
+                        twin = key[:i] + b + key[i + 1:]
+                        tk = list(progress.AnnotationsProgressStorage(prefix=ac['prefix'], v1=ac['v1']).make_keys(twin, body=body))
+                        long_pairs.append((twin, tk[0]))
+                        ctx.count('long_twins', f'{a}->{b}')
+                        break
 
         # ---------- store ----------
         patch0 = patches.Patch({})
